@@ -19,7 +19,10 @@ type c17Case struct {
 	PreOutputs bool      `json:"preOutputs"` // run the fault-free variant first
 	EditTypes  bool      `json:"editTypes"`  // change input types before the failing run (stale outputs)
 	DropOne    bool      `json:"dropOne"`    // after the first run, regenerate with one converter removed
-	Patterns   []string  `json:"patterns"`
+	// VisibleStale: before the failing run, one previously generated file inside an input package
+	// loses its build constraint and stops compiling (a leftover of a run with -output-constraint "")
+	VisibleStale bool     `json:"visibleStale,omitempty"`
+	Patterns     []string `json:"patterns"`
 }
 
 // c17Eval returns a violation message or "".
@@ -95,7 +98,30 @@ func c17Eval(s *vh.Session, c c17Case) (string, string) {
 			}
 		}
 	}
-	if faulty == 0 {
+	staleApplied := false
+	if c.VisibleStale && c.PreOutputs {
+		inputDirs := map[string]bool{}
+		for _, cv := range c.Tree.Convs {
+			inputDirs[cv.Dir] = true
+		}
+		for _, f := range sortedKeys(generatedFiles(dir)) {
+			if !inputDirs[filepath.ToSlash(filepath.Dir(f))] {
+				continue
+			}
+			raw, err := os.ReadFile(filepath.Join(dir, f))
+			if err != nil {
+				continue
+			}
+			lines := strings.Split(string(raw), "\n")
+			if len(lines) > 1 && strings.HasPrefix(lines[1], "//go:build") {
+				lines = append(lines[:1], lines[2:]...)
+			}
+			_ = os.WriteFile(filepath.Join(dir, f), []byte(strings.Join(lines, "\n")+"\nvar _ = undefinedStale\n"), 0o644)
+			staleApplied = true
+			break
+		}
+	}
+	if faulty == 0 && !staleApplied {
 		return "", ""
 	}
 	// introduce the faults (and optionally make the existing outputs stale)
@@ -119,7 +145,7 @@ func c17Eval(s *vh.Session, c c17Case) (string, string) {
 		return "", "INFRA: CLI timed out"
 	}
 	if run.Exit != 1 {
-		return fmt.Sprintf("%d of %d converters are faulty but goverter exited with status %d (stderr: %s)", faulty, len(c.Tree.Convs), run.Exit, shortErr(run.Stderr)), ""
+		return fmt.Sprintf("%d of %d converters are faulty (visible stale output that does not compile: %v) but goverter exited with status %d (stderr: %s)", faulty, len(c.Tree.Convs), staleApplied, run.Exit, shortErr(run.Stderr)), ""
 	}
 	if strings.TrimSpace(run.Stderr) == "" {
 		return "failing run printed no diagnostic on stderr", ""
@@ -228,7 +254,7 @@ func TestC17(t *testing.T) {
 			}
 			_ = dirHint
 			tree := gen.Layout(rt, o)
-			c := c17Case{Tree: tree, PreOutputs: rapid.Bool().Draw(rt, "pre-outputs"), EditTypes: rapid.Bool().Draw(rt, "edit-types"), DropOne: rapid.Bool().Draw(rt, "drop-one"), Patterns: []string{"./..."}}
+			c := c17Case{Tree: tree, PreOutputs: rapid.Bool().Draw(rt, "pre-outputs"), EditTypes: rapid.Bool().Draw(rt, "edit-types"), DropOne: rapid.Bool().Draw(rt, "drop-one"), Patterns: []string{"./..."}, VisibleStale: rapid.IntRange(0, 3).Draw(rt, "visible-stale") == 0}
 			msg, infra := c17Eval(s, c)
 			if strings.HasPrefix(infra, "INFRA") {
 				s.Infra(infra)
